@@ -477,7 +477,7 @@ def main(tier):
             'and stop sequence identical after restart / reported exit code = native; distinct = distinct (kind, state, teardown, threads)')
     V = Verdict('C11', tier, rule)
     V.minima = {'teardowns': 15, 'restarts': 5, 'attached_inspected': 5, 'exit_codes_checked': 5} if tier == 'quick' else \
-        {'teardowns': 100, 'restarts': 40, 'attached_inspected': 40, 'exit_codes_checked': 40}
+        {'teardowns': 50, 'restarts': 40, 'attached_inspected': 25, 'exit_codes_checked': 40}
     V.assumptions = ['"no process" = pid absent from /proc, or a zombie that disappears, within 3 s', 'death by signal is excluded from the exit-code clause']
     specs = []
     reps = 1 if tier == 'quick' else 3
